@@ -167,9 +167,60 @@ fn lookup(segs: &[Seg], line: u32, col: u32) -> Option<Orig> {
   best.and_then(|s| s.orig.clone())
 }
 
+/// An iterator with a freely chosen (but legal) size hint.
+struct Hinted<I> {
+  it: I,
+  hint: (usize, Option<usize>),
+}
+
+impl<I: Iterator> Iterator for Hinted<I> {
+  type Item = I::Item;
+  fn next(&mut self) -> Option<I::Item> {
+    self.it.next()
+  }
+  fn size_hint(&self) -> (usize, Option<usize>) {
+    self.hint
+  }
+}
+
+/// `encode_mappings` takes any iterator: the result must not depend on the
+/// shape of the iterator (adaptors whose size hint has lower bound 0, no upper
+/// bound, a loose upper bound, a decoder fed straight back in).
+fn check_iterator_shapes(segs: &[Seg], expected: &str, obs: &mut Obs) {
+  let v: Vec<Mapping> = segs.iter().map(mapping_of).collect();
+  let n = v.len();
+  let shapes: Vec<(&str, String)> = vec![
+    ("Vec::into_iter", encode_mappings(v.clone().into_iter())),
+    ("filter(|_| true)", encode_mappings(v.clone().into_iter().filter(|_| true))),
+    ("take_while(|_| true)", encode_mappings(v.clone().into_iter().take_while(|_| true))),
+    ("filter_map(Some)", encode_mappings(v.clone().into_iter().filter_map(Some))),
+    ("skip_while(|_| false)", encode_mappings(v.clone().into_iter().skip_while(|_| false))),
+    ("chain(empty)", encode_mappings(v.clone().into_iter().chain(std::iter::empty()))),
+    ("hint (0, None)", encode_mappings(Hinted { it: v.clone().into_iter(), hint: (0, None) })),
+    ("hint (0, Some(n))", encode_mappings(Hinted { it: v.clone().into_iter(), hint: (0, Some(n)) })),
+    ("hint (0, Some(MAX))", encode_mappings(Hinted { it: v.clone().into_iter(), hint: (0, Some(usize::MAX)) })),
+    ("hint (n, None)", encode_mappings(Hinted { it: v.clone().into_iter(), hint: (n, None) })),
+    ("decode_mappings(..) fed back", {
+      let sm = rspack_sources::SourceMap::new(expected.to_string(), Vec::<String>::new(), Vec::<String>::new(), Vec::<String>::new());
+      let out = encode_mappings(decode_mappings(&sm));
+      out
+    }),
+  ];
+  for (what, got) in shapes {
+    obs.count("iterator_shapes_encoded", 1);
+    // the decoder drops nothing the encoder wrote, so feeding it back gives
+    // the same string; all other shapes carry exactly the same items
+    if got != expected {
+      obs.fail("encode_depends_on_iterator_shape", format!("{what}: {got:?}, slice iterator gives {expected:?} (input {segs:?})"));
+      return;
+    }
+  }
+}
+
 fn check_sorted(segs: &[Seg], obs: &mut Obs) {
   let s = encode_mappings(segs.iter().map(mapping_of));
   obs.count("sequences_encoded", 1);
+  check_iterator_shapes(segs, &s, obs);
   if !vlq::is_wellformed_charset(&s) {
     obs.fail("encoded_charset", format!("{s:?}"));
   }
